@@ -10,13 +10,14 @@ Open Scope N_scope.
 (** ** strings *)
 
 (** strings the reader of flavour [fl] returns unchanged: encoding/json rewrites bytes that are
-    not valid UTF-8, so (stage B, first step) its strings are taken to be ASCII here; jsoniter
-    copies every byte *)
-Definition sclean (fl : flavour) (s : bytes) : bool :=
+    not valid UTF-8, so its strings must be valid UTF-8 ([utf8_ok]: the sequences utf8.DecodeRune
+    accepts); jsoniter copies every byte.  [pend]: continuation bytes still expected. *)
+Definition sclean_p (fl : flavour) (pend : nat) (s : bytes) : bool :=
   match fl with
-  | StdJson => forallb (fun c => c <? 128) s
-  | Jsoniter => true
+  | StdJson => utf8_ok pend s
+  | Jsoniter => match pend with O => true | S _ => false end
   end.
+Definition sclean (fl : flavour) (s : bytes) : bool := sclean_p fl 0 s.
 
 Lemma hex_low c : c <? 32 = true -> hex4 48 48 (hexdigit (c / 16)) (hexdigit (c mod 16)) = Some c.
 Proof.
@@ -84,28 +85,90 @@ Proof.
   destruct H as [H|H]; [discriminate|]. subst fl. reflexivity.
 Qed.
 
+Lemma esc_hi c : 128 <=? c = true -> esc_byte c = [c].
+Proof.
+  intro H. apply N.leb_le in H. unfold esc_byte.
+  assert (E1 : c =? 34 = false) by (apply N.eqb_neq; lia).
+  assert (E2 : c =? 92 = false) by (apply N.eqb_neq; lia).
+  assert (E3 : c <? 32 = false) by (apply N.ltb_ge; lia).
+  rewrite E1, E2, E3. reflexivity.
+Qed.
+
+Lemma in_rng_hi lo hi c : 128 <= lo -> in_rng lo hi c = true -> 128 <=? c = true.
+Proof. unfold in_rng. intros L H. apply andb_true_iff in H as [H _]. apply N.leb_le in H. apply N.leb_le. lia. Qed.
+
+Lemma lead_hi c c1 :
+  (if c =? 224 then in_rng 160 191 c1 else if c =? 237 then in_rng 128 159 c1 else cont c1) = true -> 128 <=? c1 = true.
+Proof. destruct (c =? 224); [|destruct (c =? 237)]; apply in_rng_hi; lia. Qed.
+Lemma lead4_hi c c1 :
+  (if c =? 240 then in_rng 144 191 c1 else if c =? 244 then in_rng 128 143 c1 else cont c1) = true -> 128 <=? c1 = true.
+Proof. destruct (c =? 240); [|destruct (c =? 244)]; apply in_rng_hi; lia. Qed.
+
+(** the sequence test looks only at continuation bytes, which the serialiser leaves alone *)
+Lemma seq_len_esc c s t p : seq_len c s = S p -> seq_len c (flat_map esc_byte s ++ t) = S p.
+Proof.
+  unfold seq_len.
+  destruct (in_rng 194 223 c).
+  { destruct s as [|c1 s1]; [discriminate|]. destruct (cont c1) eqn:E1; [|discriminate]. intro H.
+    cbn [flat_map]. rewrite (esc_hi c1 (in_rng_hi _ _ _ (N.le_refl _) E1)). cbn [app]. rewrite E1. exact H. }
+  destruct (in_rng 224 239 c).
+  { destruct s as [|c1 [|c2 s2]]; try discriminate.
+    destruct ((if c =? 224 then in_rng 160 191 c1 else if c =? 237 then in_rng 128 159 c1 else cont c1) && cont c2) eqn:E; [|discriminate].
+    intro H. apply andb_true_iff in E as [E1 E2].
+    cbn [flat_map]. rewrite (esc_hi c1 (lead_hi c c1 E1)), (esc_hi c2 (in_rng_hi _ _ _ (N.le_refl _) E2)). cbn [app].
+    rewrite E1, E2. exact H. }
+  destruct (in_rng 240 244 c); [|discriminate].
+  destruct s as [|c1 [|c2 [|c3 s3]]]; try discriminate.
+  destruct ((if c =? 240 then in_rng 144 191 c1 else if c =? 244 then in_rng 128 143 c1 else cont c1) && cont c2 && cont c3) eqn:E; [|discriminate].
+  intro H. apply andb_true_iff in E as [E E3]. apply andb_true_iff in E as [E1 E2].
+  cbn [flat_map]. rewrite (esc_hi c1 (lead4_hi c c1 E1)), (esc_hi c2 (in_rng_hi _ _ _ (N.le_refl _) E2)), (esc_hi c3 (in_rng_hi _ _ _ (N.le_refl _) E3)).
+  cbn [app]. rewrite E1, E2, E3. exact H.
+Qed.
+
+Lemma rstr_pend fl c t p acc : rstr fl (c :: t) (S p) acc = rstr fl t p (c :: acc).
+Proof. reflexivity. Qed.
+
+Lemma rstr_lead c t acc p :
+  c =? 34 = false -> c <? 32 = false -> c =? 92 = false -> c <? 128 = false -> seq_len c t = S p ->
+  rstr StdJson (c :: t) 0 acc = rstr StdJson t (S p) (c :: acc).
+Proof. intros E34 E32 E92 E128 SL. cbn [rstr]. rewrite E34, E32, E92, E128, SL. reflexivity. Qed.
+
+Theorem rstr_print_p fl : forall s pend acc rest,
+  sclean_p fl pend s = true ->
+  rstr fl (flat_map esc_byte s ++ 34 :: rest) pend acc = Some (rev acc ++ s, rest).
+Proof.
+  induction s as [|c s IH]; intros pend acc rest C.
+  - destruct pend as [|p]; [|destruct fl; discriminate]. cbn. rewrite app_nil_r. reflexivity.
+  - assert (Fin : rev (c :: acc) ++ s = rev acc ++ c :: s) by (cbn [rev]; rewrite <- app_assoc; reflexivity).
+    destruct pend as [|p].
+    2:{ destruct fl; [|discriminate]. cbn [sclean_p utf8_ok] in C. apply andb_true_iff in C as [Hc C'].
+        cbn [flat_map]. rewrite (esc_hi c Hc). cbn [app]. rewrite rstr_pend, (IH p (c :: acc) rest C'), Fin. reflexivity. }
+    cbn [flat_map]. rewrite <- app_assoc. unfold esc_byte.
+    destruct (c =? 34) eqn:E34.
+    { apply N.eqb_eq in E34. subst c. cbn [app]. rewrite rstr_quote, (IH 0%nat) by (destruct fl; exact C). rewrite Fin. reflexivity. }
+    destruct (c =? 92) eqn:E92.
+    { apply N.eqb_eq in E92. subst c. cbn [app]. rewrite rstr_backslash, (IH 0%nat) by (destruct fl; exact C). rewrite Fin. reflexivity. }
+    destruct (c <? 32) eqn:E32.
+    { assert (L : c <? 128 = true) by (apply N.ltb_lt in E32; apply N.ltb_lt; lia).
+      cbn [app]. rewrite (rstr_u fl _ _ _ _ _ _ c (hex_low c E32) L).
+      rewrite (IH 0%nat) by (destruct fl; [cbn [sclean_p utf8_ok] in C; rewrite L in C; exact C | exact C]).
+      rewrite Fin. reflexivity. }
+    cbn [app]. destruct (c <? 128) eqn:E128.
+    { rewrite rstr_plain by auto.
+      rewrite (IH 0%nat) by (destruct fl; [cbn [sclean_p utf8_ok] in C; rewrite E128 in C; exact C | exact C]).
+      rewrite Fin. reflexivity. }
+    destruct fl.
+    + cbn [sclean_p utf8_ok] in C. rewrite E128 in C.
+      destruct (seq_len c s) as [|p] eqn:SL; [discriminate|].
+      rewrite (rstr_lead c _ acc p E34 E32 E92 E128 (seq_len_esc c s _ p SL)).
+      rewrite (IH (S p) (c :: acc) rest C), Fin. reflexivity.
+    + rewrite rstr_plain by auto. rewrite (IH 0%nat) by exact C. rewrite Fin. reflexivity.
+Qed.
+
 Theorem rstr_print fl : forall s acc rest,
   sclean fl s = true ->
   rstr fl (flat_map esc_byte s ++ 34 :: rest) 0 acc = Some (rev acc ++ s, rest).
-Proof.
-  induction s as [|c s IH]; intros acc rest C.
-  - cbn. rewrite app_nil_r. reflexivity.
-  - assert (C' : sclean fl s = true).
-    { destruct fl; cbn in *; [apply andb_true_iff in C; tauto | reflexivity]. }
-    assert (Hc : c <? 128 = true \/ fl = Jsoniter).
-    { destruct fl; [left; cbn in C; apply andb_true_iff in C; tauto | right; reflexivity]. }
-    assert (Fin : rev (c :: acc) ++ s = rev acc ++ c :: s) by (cbn [rev]; rewrite <- app_assoc; reflexivity).
-    cbn [flat_map]. rewrite <- app_assoc. unfold esc_byte.
-    destruct (c =? 34) eqn:E34.
-    { apply N.eqb_eq in E34. subst c. cbn [app]. rewrite rstr_quote, IH by exact C'. rewrite Fin. reflexivity. }
-    destruct (c =? 92) eqn:E92.
-    { apply N.eqb_eq in E92. subst c. cbn [app]. rewrite rstr_backslash, IH by exact C'. rewrite Fin. reflexivity. }
-    destruct (c <? 32) eqn:E32.
-    { cbn [app]. rewrite (rstr_u fl _ _ _ _ _ _ c (hex_low c E32)).
-      - rewrite IH by exact C'. rewrite Fin. reflexivity.
-      - apply N.ltb_lt in E32. apply N.ltb_lt. lia. }
-    cbn [app]. rewrite rstr_plain by assumption. rewrite IH by exact C'. rewrite Fin. reflexivity.
-Qed.
+Proof. intros s acc rest C. apply rstr_print_p, C. Qed.
 
 (** ** values *)
 Definition no_num_head (s : bytes) : Prop :=
@@ -445,19 +508,28 @@ Definition wit_long_s : bytes :=   (* {"query":"{a}","variable<U+017F>":{"x":nul
 Definition wit_surrogates : bytes :=   (* "\ud800𐀀" *)
   [34; 92;117;100;56;48;48; 92;117;100;56;48;48; 92;117;100;99;48;48; 34].
 
-Theorem same_text_other_operation :
-  (exists text o1 o2 x id,
-     decode fixed (parse_text StdJson (fun _ => None)) (parse_text Jsoniter (fun _ => None))
-            (WHttp {| e_method := m_post; e_media := mt_json; e_url := []; e_body := text |}) = Some (o1, x) /\
-     decode fixed (parse_text StdJson (fun _ => None)) (parse_text Jsoniter (fun _ => None))
-            (WWs GraphqlWS {| f_type := t_start; f_id := id; f_payload := Some text |}) = Some (o2, None) /\
-     o_vars o1 <> o_vars o2) /\
+(** what the pinned tree did with socket payloads: jsoniter ([parse_text Jsoniter] +
+    [decode_struct Jsoniter]) against encoding/json on HTTP — the same bytes, two operations *)
+Definition payload_op (fl : flavour) (text : bytes) : option op :=
+  match parse_text fl (fun _ => None) text with
+  | PTree j => option_map body_op (decode_struct fl false j)
+  | _ => None
+  end.
+
+Definition wit_null_after : bytes :=   (* {"query":"{a}","query":null} *)
+  [123;34;113;117;101;114;121;34;58;34;123;97;125;34;44;34;113;117;101;114;121;34;58;110;117;108;108;125].
+
+Theorem ws_payload_library_refuted_before_fix :
+  (exists text o1 o2, payload_op StdJson text = Some o1 /\ payload_op Jsoniter text = Some o2 /\ o_vars o1 <> o_vars o2) /\
+  (exists text o1 o2, payload_op StdJson text = Some o1 /\ payload_op Jsoniter text = Some o2 /\ o_query o1 <> o_query o2) /\
   (exists text s1 s2,
      parse_text StdJson (fun _ => None) text = PTree (JStr s1) /\
      parse_text Jsoniter (fun _ => None) text = PTree (JStr s2) /\ s1 <> s2).
 Proof.
-  split.
-  - exists wit_long_s. do 3 eexists. exists [49].
+  split; [|split].
+  - exists wit_long_s. do 2 eexists.
+    split; [vm_compute; reflexivity|]. split; [vm_compute; reflexivity|]. discriminate.
+  - exists wit_null_after. do 2 eexists.
     split; [vm_compute; reflexivity|]. split; [vm_compute; reflexivity|]. discriminate.
   - exists wit_surrogates. do 2 eexists.
     split; [vm_compute; reflexivity|]. split; [vm_compute; reflexivity|]. discriminate.
